@@ -100,7 +100,7 @@ Print Assumptions C09_composite_decode_encode.
    column is bound, the key consists of the values bound to the partition-key columns, in PARTITION-KEY
    order (not bind order), the first marker winning when a column is bound more than once. *)
 Theorem C09_routing_key_by_name : forall cc cols pk vals keyvals,
-  cc <> 0 -> length vals = length cols ->
+  cc <> 0 -> cols <> [] -> length vals = length cols ->
   map (fun n => bound_value n cols vals) pk = map Some keyvals ->
   Forall short_comp keyvals ->
   get_routing_key None false cc cols [] false (Some pk) (map MOk vals) (Z.of_nat (length cols))
@@ -126,6 +126,15 @@ Theorem C09_routing_key_v4 : forall cc cols pkey ks0 tpk vals,
   = RKOk (partition_key (map (fun i => nth (Z.to_nat i) vals []) pkey)).
 Proof. exact routing_key_v4_lemma. Qed.
 Print Assumptions C09_routing_key_v4.
+
+(* A partition-key index that does not designate a bind column (malformed PREPARED response) gives an error -
+   never an index-out-of-range panic - whatever else the response and the bound values are. *)
+Theorem C09_routing_key_bad_pk_index : forall cc cols pkey ks0 tpk per nvalues,
+  cc <> 0 -> cols <> [] ->
+  (exists i, In i pkey /\ ~ (0 <= i < Z.of_nat (length cols))) ->
+  get_routing_key None false cc cols pkey ks0 tpk per nvalues = RKErr.
+Proof. exact routing_key_bad_index_lemma. Qed.
+Print Assumptions C09_routing_key_bad_pk_index.
 
 (* One *Query used several times (GetRoutingKey, token-aware Pick, Bind of new values, RoutingKey, Release and
    reuse, in any order and number): the key returned right after Bind(values) is the key of THOSE values (or the
